@@ -1,1 +1,107 @@
-From DV Require Import Prelude.Base Model.Node.
+(* C10 — application requests: eligible peer, fresh identifiers, answer correlation
+   Statements copied from the proof files; each is closed by `exact`. *)
+From DV Require Prelude.Base Model.Ids Proofs.IdsP Model.Node Proofs.NodeC.
+From Coq Require String List Lia Bool Arith ZArith.
+
+Module FromNodeC.
+Import DV.Prelude.Base DV.Model.Ids DV.Proofs.IdsP DV.Model.Node DV.Proofs.NodeC.
+Local Open Scope Z_scope.
+
+(* route_request: the peers offered are exactly the usable peers named in the chosen list;
+   no list is offered iff no (non-empty) list can be chosen *)
+Theorem route_request_spec n i realm :
+  (forall l, route_request n i realm = Some l ->
+     exists names, chosen_list n i realm names /\ names <> [] /\
+       forall p, List.In p l <->
+                 exists nm, List.In nm names /\ get_peer n nm = Some p /\ usable_peer n p) /\
+  (route_request n i realm = None <-> forall names, chosen_list n i realm names -> names = []).
+Proof. exact (@NodeC.route_request_spec n i realm). Qed.
+
+(* shape of the reaction to Application.send_request: NotRoutable, or the request handed to the
+   connection of the peer chosen from route_request's list, followed only by what the I/O thread
+   does on its own.  n4 is the node before the I/O thread settles. *)
+Theorem C10_request_shape n ds i m realm pick timeout n' outs :
+  step n ds (EAppRequest i m realm pick timeout) = (n', outs) ->
+  outs = [ONotRoutable] \/
+  exists usable p cid c m' n4 rest,
+    route_request n i realm = Some usable /\ usable <> [] /\ choose usable pick = Some p /\
+    p_conn p = Some cid /\ get_conn n cid = Some c /\
+    outs = OQueue cid m' :: rest /\ settle' n4 ds = (n', rest) /\ List.Forall (sysout (pmap n)) rest /\
+    o_req m' = true /\ o_cmd m' = o_cmd m /\ o_tag m' = o_tag m /\
+    o_hbh m' = (if o_hbh m =? 0 then seq_next (c_hbh c) else o_hbh m) /\
+    o_e2e m' = (if o_e2e m =? 0 then seq_next (n_e2e n) else o_e2e m) /\
+    (exists c4, get_conn n4 cid = Some c4 /\
+                c_hbh c4 = (if o_hbh m =? 0 then seq_next (c_hbh c) else c_hbh c) /\
+                c_out c4 = (c_out c ++ [m'])%list /\ c_state c4 = c_state c) /\
+    n_e2e n4 = (if o_e2e m =? 0 then seq_next (n_e2e n) else n_e2e n) /\
+    List.In (o_hbh m', o_e2e m', i) (n_app_waiting n4).
+Proof. exact (@NodeC.C10_request_shape n ds i m realm pick timeout n' outs). Qed.
+
+(* C10: whatever is handed to a connection is a request; it is either the I/O thread's own
+   CER / DWR, or the application's request and then the connection is the one of the peer
+   selected from route_request's list (the only one, or the pick-th modulo the length) *)
+Theorem C10_eligible n ds i m realm pick timeout n' outs cid m' :
+  step n ds (EAppRequest i m realm pick timeout) = (n', outs) ->
+  List.In (OQueue cid m') outs ->
+  o_req m' = true /\
+  (own_req m' \/
+   exists usable p,
+     route_request n i realm = Some usable /\ List.In p usable /\ p_conn p = Some cid /\
+     (forall q, usable = [q] -> p = q) /\
+     (List.length usable <> 1%nat -> List.nth_error usable (Nat.modulo pick (List.length usable)) = Some p) /\
+     o_cmd m' = o_cmd m /\ o_tag m' = o_tag m).
+Proof. exact (@NodeC.C10_eligible n ds i m realm pick timeout n' outs cid m'). Qed.
+
+(* C10: no route, or no usable peer: NotRoutable and nothing else *)
+Theorem C10_none_is_error n ds i m realm pick timeout :
+  route_request n i realm = None \/ route_request n i realm = Some [] ->
+  step n ds (EAppRequest i m realm pick timeout) = (fst (e2e_prep n m), [ONotRoutable]).
+Proof. exact (@NodeC.C10_none_is_error n ds i m realm pick timeout). Qed.
+
+(* C10: a hop-by-hop id left 0 by the caller is drawn from the chosen connection's generator:
+   it is the successor of the generator state, the state is advanced to it, it lies in
+   1 .. 2^32-1 (so it is not 0) and differs from the previous state (so from the previous draw) *)
+Theorem C10_hbh_fresh n ds i m realm pick timeout n' outs :
+  step n ds (EAppRequest i m realm pick timeout) = (n', outs) ->
+  o_hbh m = 0 -> outs <> [ONotRoutable] ->
+  exists cid c m' rest n4 c4,
+    outs = OQueue cid m' :: rest /\ get_conn n cid = Some c /\
+    o_hbh m' = seq_next (c_hbh c) /\
+    settle' n4 ds = (n', rest) /\ get_conn n4 cid = Some c4 /\ c_hbh c4 = seq_next (c_hbh c) /\
+    (1 <= c_hbh c <= 4294967295 ->
+     1 <= o_hbh m' <= 4294967295 /\ o_hbh m' <> 0 /\ o_hbh m' <> c_hbh c /\
+     seq_next (c_hbh c4) <> o_hbh m').
+Proof. exact (@NodeC.C10_hbh_fresh n ds i m realm pick timeout n' outs). Qed.
+
+(* C10: an answer is handed to the blocked caller of the application that sent the request
+   (and to no other application), or reported as unexpected to that application when nobody is
+   blocked on it any more; an answer nobody asked for produces nothing.  In the first two
+   cases the record is dropped. *)
+Theorem C10_correlation n m :
+  (forall i a, aw_lookup n m = Some i -> List.nth_error (n_apps n) i = Some a ->
+     (mem_z (m_hbh m) (List.map fst (a_waiting a)) = true ->
+      exists n', recv_app_answer n m = (n', [OAnswerTo i m]) /\ aw_lookup n' m = None /\
+                 (exists a', List.nth_error (n_apps n') i = Some a' /\
+                             mem_z (m_hbh m) (List.map fst (a_waiting a')) = false) /\
+                 (forall j, j <> i -> List.nth_error (n_apps n') j = List.nth_error (n_apps n) j)) /\
+     (mem_z (m_hbh m) (List.map fst (a_waiting a)) = false ->
+      exists n', recv_app_answer n m = (n', [OUnexpected i m]) /\ aw_lookup n' m = None /\
+                 n_apps n' = n_apps n)) /\
+  (aw_lookup n m = None -> recv_app_answer n m = (n, [])).
+Proof. exact (@NodeC.C10_correlation n m). Qed.
+
+(* C10: a second copy of an answer is ignored *)
+Theorem C10_duplicate_ignored n m i a n1 o1 :
+  aw_lookup n m = Some i -> List.nth_error (n_apps n) i = Some a ->
+  recv_app_answer n m = (n1, o1) ->
+  (o1 = [OAnswerTo i m] \/ o1 = [OUnexpected i m]) /\ recv_app_answer n1 m = (n1, []).
+Proof. exact (@NodeC.C10_duplicate_ignored n m i a n1 o1). Qed.
+End FromNodeC.
+
+Print Assumptions FromNodeC.route_request_spec.
+Print Assumptions FromNodeC.C10_request_shape.
+Print Assumptions FromNodeC.C10_eligible.
+Print Assumptions FromNodeC.C10_none_is_error.
+Print Assumptions FromNodeC.C10_hbh_fresh.
+Print Assumptions FromNodeC.C10_correlation.
+Print Assumptions FromNodeC.C10_duplicate_ignored.
